@@ -1,11 +1,12 @@
 #!/bin/sh
 # Builds everything the checks need from files on disk only (offline).
 set -e
-cd /verif/lean
+HERE=$(cd "$(dirname "$0")" && pwd)
+cd "$HERE/lean"
 lake build SeqIoModel seqio_model
 for m in SeqIoModel/Theorems/*.lean; do
   lake build "SeqIoModel.Theorems.$(basename "$m" .lean)"
 done
-cd /verif/harness
+cd "$HERE/harness"
 CARGO_NET_OFFLINE=true cargo build --offline --quiet
 echo setup done
